@@ -166,8 +166,12 @@ def dec_val(s: str):
 
 # type descriptors: ("int",) ("float",) ("str",) ("bool",) ("any",) ("opt", t) ("list", t) ("tvar", t)
 #                   ("tfix", [t…]) ("dict", t) ("struct", name, [(fname, t, has_default, default_nv)…])
+#                   ("lany"|"tany"|"dany"[, spelling])  untyped aggregates; the spelling (typing alias / builtin) is not
+#                   part of the encoding: both spellings behave alike in _parse_config_value
 
-SCALARS = {"int": "i", "float": "f", "str": "s", "bool": "b", "any": "a"}
+SCALARS = {"int": "i", "float": "f", "str": "s", "bool": "b", "any": "a",
+           "lany": "x", "tany": "y", "dany": "z"}     # untyped list/List, Tuple, dict/Dict; t[1] (optional) = spelling
+BARE = {"lany": ("List", "list"), "tany": ("Tuple", "tuple"), "dany": ("Dict", "dict")}
 UNARY = {"opt": "o", "list": "l", "tvar": "v", "dict": "d"}
 
 
@@ -322,6 +326,10 @@ class World:
             return bool
         if k == "any":
             return typing.Any
+        if k in BARE:
+            spelling = t[1] if len(t) > 1 else BARE[k][0]
+            return {"List": typing.List, "list": list, "Tuple": typing.Tuple, "tuple": tuple,
+                    "Dict": typing.Dict, "dict": dict}[spelling]
         if k == "opt":
             return typing.Optional[self.realise(t[1])]
         if k == "list":
@@ -338,7 +346,7 @@ class World:
             name = t[1]
             if name in self.shipped_classes:
                 return self.shipped_classes[name]
-            key = enc_ty(t)
+            key = repr(t)
             if key in self.by_ty:
                 self.classes[name] = self.by_ty[key]
                 for _, ft, _, _ in t[2]:
@@ -361,7 +369,7 @@ class World:
                     ns[fname] = dataclasses.field(default_factory=(lambda r=real: copy.deepcopy(r)))
         cls = configstruct(type(name, (), ns))
         self.classes[name] = cls
-        self.by_ty[enc_ty(t)] = cls
+        self.by_ty[repr(t)] = cls
         return cls
 
     def real(self, v, ordered: bool = False):
@@ -418,6 +426,16 @@ def describe_type(tp, describe_cls):
         return ("bool",)
     if tp is typing.Any:
         return ("any",)
+    if tp is list:
+        return ("lany", "list")
+    if tp is dict:
+        return ("dany", "dict")
+    if tp is typing.List:
+        return ("lany", "List")
+    if tp is typing.Dict:
+        return ("dany", "Dict")
+    if tp is typing.Tuple:
+        return ("tany", "Tuple")
     origin = typing.get_origin(tp)
     args = typing.get_args(tp)
     if origin is typing.Union:
@@ -518,6 +536,8 @@ def _lean_val(v) -> str:
 
 def _lean_ty(t, known) -> str:
     k = t[0]
+    if k in BARE:
+        return {"lany": ".listAny", "tany": ".tupleAny", "dany": ".dictAny"}[k]
     if k in SCALARS:
         return "." + k
     if k == "opt":
@@ -644,8 +664,11 @@ def gen_type(rng, depth: int, world: World, struct_only: bool = False):
     elif depth <= 0:
         k = rng.choice(["int", "int", "float", "float", "str", "str", "bool", "any"])
     else:
-        k = rng.choices(["int", "float", "str", "bool", "any", "opt", "list", "tvar", "tfix", "dict", "struct"],
-                        [2, 2.5, 2, 1.5, 1, 2.5, 2, 1.5, 3, 2, 2.5])[0]
+        k = rng.choices(["int", "float", "str", "bool", "any", "opt", "list", "tvar", "tfix", "dict", "struct",
+                         "lany", "tany", "dany"],
+                        [2, 2.5, 2, 1.5, 1, 2.5, 2, 1.5, 3, 2, 2.5, 0.5, 0.5, 0.5])[0]
+    if k in BARE:
+        return (k, rng.choice(BARE[k]) if k != "tany" else "Tuple")     # builtin `tuple` is not an accepted field type
     if k in SCALARS:
         return (k,)
     if k in UNARY:
@@ -686,6 +709,13 @@ def gen_valid(t, rng, json_only: bool = False):
         return rng.random() < 0.5
     if k == "any":
         return gen_json(rng, 2)
+    if k == "lany":
+        return [gen_json(rng, 1) for _ in range(rng.randint(0, 3))]
+    if k == "tany":
+        xs = [gen_json(rng, 1) for _ in range(rng.randint(0, 3))]
+        return tuple(xs) if (not json_only and rng.random() < 0.15) else xs
+    if k == "dany":
+        return {gen_str(rng): gen_json(rng, 1) for _ in range(rng.randint(0, 3))}
     if k == "opt":
         return None if rng.random() < 0.35 else gen_valid(t[1], rng, json_only)
     if k == "list":
@@ -746,6 +776,12 @@ def gen_bad(t, rng):
         c = rng.choice(["int", "float", "bool", "none", "list", "dict"])
     elif k == "bool":
         c = rng.choice(["int", "int01", "float", "str", "none", "list"])
+    elif k == "lany":
+        c = rng.choice(["int", "str", "none", "dict", "bool", "anytuple"])
+    elif k == "tany":
+        c = rng.choice(["int", "str", "none", "dict", "bool", "float"])
+    elif k == "dany":
+        c = rng.choice(["int", "str", "none", "list", "bool"])
     elif k == "list":
         c = rng.choice(["int", "str", "none", "dict", "bool", "tuple"])
     elif k == "tvar":
@@ -770,6 +806,8 @@ def gen_bad(t, rng):
         return {gen_str(rng): gen_json(rng, 1) for _ in range(rng.randint(0, 2))}, "wrong-container"
     if c == "tuple":
         return tuple(gen_valid(t[1], rng) for _ in range(rng.randint(0, 2))), "wrong-container"
+    if c == "anytuple":
+        return tuple(gen_json(rng, 0) for _ in range(rng.randint(0, 2))), "wrong-container"
     n = len(t[1])
     if c == "str_len":
         return "".join(rng.choice("abc#") for _ in range(n)), "sized-non-sequence"
@@ -884,6 +922,12 @@ def spec(t, v, path, off):
         return v if isinstance(v, str) else bad()
     if k == "bool":
         return v if isinstance(v, bool) else bad()
+    if k == "lany":
+        return v if isinstance(v, list) else bad()            # untyped: the container is checked, the content is not
+    if k == "tany":
+        return tuple(v) if isinstance(v, (list, tuple)) else bad()
+    if k == "dany":
+        return v if isinstance(v, dict) else bad()
     if k == "list":
         if isinstance(v, list):
             return [spec(t[1], x, path + [("i", i)], off) for i, x in enumerate(v)]
@@ -1770,6 +1814,8 @@ def systematic_cases(world: World, deep: bool = False):
         ("list", ("int",)), ("tvar", ("int",)), ("tfix", []), ("tfix", [("int",)]),
         ("tfix", [("int",), ("str",)]), ("dict", ("int",)), inner_struct,
         ("list", ("tfix", [("float",), ("float",)])), ("dict", ("tfix", [("int",), ("int",)])),
+        ("lany", "List"), ("lany", "list"), ("tany", "Tuple"), ("dany", "Dict"), ("dany", "dict"),
+        ("opt", ("lany", "list")), ("list", ("dany", "Dict")), ("dict", ("tany", "Tuple")),
     ]
     values = [
         None, True, False, 0, 1, -7, 10 ** 30, FLOAT_LIMIT - 1, FLOAT_LIMIT, -FLOAT_LIMIT, 10 ** 400,
